@@ -131,8 +131,10 @@ func (p *parser) parseIPv4Number(u *Url, input string) (number int64, validation
 		validationError = true
 		return
 	}
-	number, err = strconv.ParseInt(input, R, 64)
-	return
+	// ParseUint rejects a leading sign, which is not part of an IPv4 number.
+	// 63 bits keeps the value within the range of int64.
+	n, err := strconv.ParseUint(input, R, 63)
+	return int64(n), validationError, err
 }
 
 func (p *parser) parseIPv4(u *Url, input string) (string, error) {
